@@ -670,3 +670,120 @@ Proof.
     assert (a = c) by lia. assert (b = i) by lia. subst a b. reflexivity.
 Qed.
 
+
+(* the newest registration wins: a poll decodes its answer as the class it registered *)
+Lemma reg_lookup_registered r c x : reg_lookup (reg_register r c x) c = Some x.
+Proof.
+  unfold reg_register. cbn [reg_lookup].
+  replace (cid_eqb c c) with true by (symmetry; apply cid_eqb_eq; reflexivity). reflexivity.
+Qed.
+
+Lemma reg_lookup_other r c x c' : c' <> c -> reg_lookup (reg_register r c x) c' = reg_lookup r c'.
+Proof.
+  intros Hne. unfold reg_register. cbn [reg_lookup].
+  destruct (cid_eqb c' c) eqn:Hc; [|reflexivity].
+  apply cid_eqb_eq in Hc. contradiction.
+Qed.
+
+(* The part of poll_safe that holds for every registry. *)
+Theorem poll_safe_basic : forall E (B : backend E) sk fuel rq w f,
+  fst (do_request B sk fuel RPoll rq w) = Return (Some f) ->
+  rf_cid f = rq_cid rq /\ rf_name f = fst (rq_resp rq)
+  /\ build_with_data sk (snd (rq_resp rq)) (rf_payload f) = Ok (rf_dec f).
+Proof.
+  intros E B sk fuel rq w f H. apply pair_eta in H. cbn [do_request] in H.
+  destruct (poll_inv _ _ _ _ _ _ _ H)
+    as (tr & stream & _ & _ & _ & Hc & (rk & Hlk & Hbd) & _).
+  rewrite Hc, reg_lookup_registered in Hlk.
+  inversion Hlk as [Hr]. rewrite Hr. cbn [fst snd].
+  split; [exact Hc|]. split; [reflexivity | exact Hbd].
+Qed.
+Print Assumptions poll_safe_basic.
+
+(* poll_safe with the hypothesis that the server's registry decodes ACK-ACK as the library's
+   own UbxAckAck class (true for new_srv and kept by every request that does not re-register
+   (5,1)).  Without it the last conjunct is false: see poll_safe_counterexample below. *)
+Theorem poll_safe_partial : forall E (B : backend E) sk fuel rq w f nm,
+  reg_lookup (sreg (wsrv w)) CID_ACK = Some (nm, ack_kind) ->
+  fst (do_request B sk fuel RPoll rq w) = Return (Some f) ->
+  let w' := snd (do_request B sk fuel RPoll rq w) in
+  rf_cid f = rq_cid rq /\ rf_name f = fst (rq_resp rq)
+  /\ build_with_data sk (snd (rq_resp rq)) (rf_payload f) = Ok (rf_dec f)
+  /\ (is_cfg (rq_cid rq) = true ->
+      exists stream q1 q2 q3 pa,
+        rx_after_last_tx (new_events w w') = Some stream
+        /\ queue (process (fresh (Some (poll_filter (rq_cid rq)))) stream)
+           = q1 ++ [Pkt (fst (rq_cid rq)) (snd (rq_cid rq)) (rf_payload f)] ++ q2 ++ [Pkt 5 1 pa] ++ q3
+        /\ ack_names pa (rq_cid rq)).
+Proof.
+  intros E B sk fuel rq w f nm Hack H w'.
+  destruct (poll_safe_basic E B sk fuel rq w f H) as (Hc & Hn & Hb).
+  split; [exact Hc|]. split; [exact Hn|]. split; [exact Hb|].
+  intros Hcfg.
+  assert (H' : do_request B sk fuel RPoll rq w = (Return (Some f), w')) by (apply pair_eta, H).
+  clearbody w'. clear H. cbn [do_request] in H'.
+  destruct (poll_inv _ _ _ _ _ _ _ H')
+    as (tr & stream & Htr & Hra & _ & _ & _ & popped & rest & Hq & _ & Hacked).
+  destruct (Hacked Hcfg) as (q1 & q2 & fa & Hpop & Hck & (rk & Hlk & Hbd)).
+  apply check_ack_spec in Hck. destruct Hck as (Hca & Hcls & Hmsg).
+  assert (Hne : CID_ACK <> rq_cid rq).
+  { intros Heq. unfold is_cfg in Hcfg. rewrite <- Heq in Hcfg. discriminate Hcfg. }
+  rewrite Hca, (reg_lookup_other _ _ _ _ Hne), Hack in Hlk.
+  inversion Hlk; subst rk; clear Hlk.
+  exists stream, q1, q2, rest, (rf_payload fa).
+  split; [rewrite (new_events_eq _ _ _ Htr); exact Hra|].
+  split.
+  - rewrite Hq, Hpop. unfold pkt_of. rewrite Hc, Hca. cbn [CID_ACK fst snd].
+    rewrite <- !app_assoc. reflexivity.
+  - apply (ack_kind_names sk _ _ _ _ Hbd Hcls Hmsg).
+Qed.
+Print Assumptions poll_safe_partial.
+
+(* ------------------------------------------------------------------ poll_safe as stated is false *)
+(* The statement of C04_poll_safe has no hypothesis on the registry.  A server whose registry
+   decodes (5,1) with another class (here: one leading byte before clsId/msgId) accepts the
+   payload [9; 6; 1] as the ACK-ACK of a (6,1) poll, and that payload does not start with 6, 1. *)
+Module Counterexample.
+Import ScriptBackend.
+
+Definition odd_ack : rkind :=
+  RK (KFixed [("reserved"%string, TU 1); ("clsId"%string, TU 1); ("msgId"%string, TU 1)]).
+Definition rq0 : request := mkRequest (6, 1) (BFields []) ("Resp"%string, RK (KFixed [])).
+Definition stream0 : bytes := wire 6 1 [] ++ wire 5 1 [9; 6; 1].
+Definition env0 : script := mkScript [] [(true, [(Some stream0, 1)])] 1.
+Definition w0 : world script :=
+  mkWorld (mkSrv (fresh None) [(CID_ACK, ("OddAck"%string, odd_ack))] 0 10) env0 0 [] false.
+Definition f0 : rframe := mkRFrame "Resp" (6, 1) [] (DFields []).
+
+Theorem poll_safe_counterexample :
+  ~ (forall E (B : backend E) sk fuel rq w f,
+      fst (do_request B sk fuel RPoll rq w) = Return (Some f) ->
+      let w' := snd (do_request B sk fuel RPoll rq w) in
+      rf_cid f = rq_cid rq /\ rf_name f = fst (rq_resp rq)
+      /\ build_with_data sk (snd (rq_resp rq)) (rf_payload f) = Ok (rf_dec f)
+      /\ (is_cfg (rq_cid rq) = true ->
+          exists stream q1 q2 q3 pa,
+            rx_after_last_tx (new_events w w') = Some stream
+            /\ queue (process (fresh (Some (poll_filter (rq_cid rq)))) stream)
+               = q1 ++ [Pkt (fst (rq_cid rq)) (snd (rq_cid rq)) (rf_payload f)] ++ q2 ++ [Pkt 5 1 pa] ++ q3
+            /\ ack_names pa (rq_cid rq))).
+Proof.
+  intros H.
+  assert (Hret : fst (do_request script_backend [] 10 RPoll rq0 w0) = Return (Some f0))
+    by (vm_compute; reflexivity).
+  destruct (H script script_backend [] 10%nat rq0 w0 f0 Hret) as (_ & _ & _ & Hcfg).
+  destruct (Hcfg eq_refl) as (stream & q1 & q2 & q3 & pa & Hra & Hq & (rest & Hpa)).
+  assert (Hs : rx_after_last_tx (new_events w0 (snd (do_request script_backend [] 10 RPoll rq0 w0)))
+               = Some stream0) by (vm_compute; reflexivity).
+  rewrite Hs in Hra. inversion Hra; subst stream; clear Hra Hs.
+  assert (Hqv : queue (process (fresh (Some (poll_filter (rq_cid rq0)))) stream0)
+                = [Pkt 6 1 []; Pkt 5 1 [9; 6; 1]]) by (vm_compute; reflexivity).
+  rewrite Hqv in Hq.
+  assert (Hin : In (Pkt 5 1 pa) [Pkt 6 1 []; Pkt 5 1 [9; 6; 1]]).
+  { rewrite Hq. apply in_or_app. right. apply in_or_app. right.
+    apply in_or_app. right. left. reflexivity. }
+  subst pa. cbn [rq_cid rq0 fst snd] in Hin.
+  destruct Hin as [Hin|[Hin|[]]]; discriminate Hin.
+Qed.
+Print Assumptions poll_safe_counterexample.
+End Counterexample.
